@@ -31,6 +31,7 @@ type GenCfg struct {
 	MaxParents int // other-parents drawn from [0,MaxParents)
 	MinParents int
 	ForkProb   float64
+	Leak       float64 // during a partition, probability that a tip of the other group is still accepted as parent (0 = strict partition)
 	StrayProb  float64 // probability that a fork event is a stray twin nobody builds on (0 = the default 1/3)
 	PartProb   float64 // probability per event to start a partition period
 	TieHeavy   bool
@@ -299,6 +300,9 @@ func Generate(r *rand.Rand, cfg *GenCfg) (*DAG, *Inst, error) {
 					group[i] = r.Intn(2)
 				}
 				partLeft = 5 + r.Intn(4*n+5)
+				if cfg.Leak > 0 {
+					partLeft += 6 * n // a leaky partition lasts for several frames
+				}
 			}
 			e := &Ev{}
 			e.SetEpoch(plan.Epoch)
@@ -339,8 +343,11 @@ func Generate(r *rand.Rand, cfg *GenCfg) (*DAG, *Inst, error) {
 				if k <= 0 {
 					break
 				}
-				if o == c || len(tips[o]) == 0 || group[o] != group[c] {
+				if o == c || len(tips[o]) == 0 {
 					continue
+				}
+				if group[o] != group[c] && !(cfg.Leak > 0 && r.Float64() < cfg.Leak) {
+					continue // partitioned away (a leaky partition lets a few cross links through)
 				}
 				p := tips[o][r.Intn(len(tips[o]))]
 				parents = append(parents, p.ID())
